@@ -76,10 +76,13 @@ CLAIMED = {
         text="Model of ProtocolHandler.command / __call__ at settled loop states: _seq, _awaiting (insertion-ordered, with the state of each entry's future), the holder of the MAX_COMMAND_CONCURRENCY slot and its future, waiters ordered as PriorityDynamicBoundedSemaphore orders them; events {call, send completion/failure, frame, timer expiry, clock advance, cancellation}. "
         "Theorems: inductive invariant over every event list (the table holds exactly the live holder's unanswered entry; waiters sorted by priority; nobody queued behind a free slot); a call returns a payload only from a frame carrying its own sequence number and frame ID while it is the call in flight; TimeoutError exactly EZSP_CMD_TIMEOUT after the send completed; at most one request in flight; "
         "the released slot goes to the greatest-priority, oldest waiter (insert position proved: behind ≥, ahead of <) with the generated priority classes (999 keep-alive/counter reads, 0, −1 packet-send); sequence numbers advance by one mod 256; a decodable frame whose sequence number no call in flight owns reaches the callbacks exactly once and changes nothing else. "
-        "Tie: generated priorities/constants + real EZSP + ProtocolHandler (v4/v7/v8/v14) with a scripted gateway on a virtual-time loop: all sequences of ≤ 2 (3 thorough) commands × 13 per-command behaviours, random scripts with 2–4 queued callers of mixed priority, malformed frames and cancellations, 300-command soaks; model compared at every settled state, oracle on the implementation trace.",
+        "Tie: generated priorities/constants + real EZSP + ProtocolHandler (v4/v7/v8/v14) with a scripted gateway on a virtual-time loop: all sequences of ≤ 2 (3 thorough) commands × 13 per-command behaviours, random scripts with 2–4 queued callers of mixed priority, malformed frames and cancellations, 300-command soaks; model compared at every settled state, oracle on the implementation trace. "
+        "Source-level: ProtocolHandler.command, _ezsp_frame and _get_command_priority are translated from the syntax tree on every run (BV/Gen/SrcCmd.lean; try/finally, async with, *args/**kwargs, the literal priority table) and run against an arbitrary script of what the environment does at the three await points - the frames received meanwhile go through the guard of frame_received into the generated __call__ on the same state (BV/Py/CmdEnv.lean). "
+        "Proved over the generated definition for every script (BV/Proofs/Src/Cmd.lean): c06_src_no_entry_left (every entry of _awaiting after the call was there before it - reply, stray, duplicate, none, send failure, timeout, cancellation at any await), c06_src_release_once, c06_src_priority (= the reflected table), c06_src_request (header with the handler's sequence number + frame ID + serialised arguments, sent once, counter +1 mod 256), "
+        "c06_src_own_reply (values returned => a received frame decodes to exactly them with the request's sequence number and the command's frame ID), c06_src_timeout, c06_src_frame.",
         ref="6 C06",
-        technique="Lean 4 proof (inductive invariant over event lists + per-event specifications; callback-registry invariant by induction over add/remove/deliver histories) + exhaustive/random differential vs real command()/__call__ and add_callback/remove_callback/handle_callback on a virtual-time loop",
-        note="zigpy's PriorityDynamicBoundedSemaphore is modelled (ordering by (-priority, arrival)); granularity is settled loop states. Callback fan-out: model BV.Registry (id = hash + linear probing, hash an input), theorems c06_registry_add / _inv / _remove / _fanout "
+        technique="Lean 4 proof (inductive invariant over event lists + per-event specifications; callback-registry invariant by induction over add/remove/deliver histories) + exhaustive/random differential vs real command()/__call__ and add_callback/remove_callback/handle_callback on a virtual-time loop; source-level translation of ProtocolHandler.command / _ezsp_frame / _get_command_priority with the clauses proved over the generated definitions for every environment script",
+        note="zigpy's PriorityDynamicBoundedSemaphore is modelled (ordering by (-priority, arrival)); granularity is settled loop states. In the source-level translation the coroutine runs sequentially against a script: mutual exclusion of the registered section (the semaphore with MAX_COMMAND_CONCURRENCY = 1) is assumed there and is what the hand-written model and its differential check cover. Callback fan-out: model BV.Registry (id = hash + linear probing, hash an input), theorems c06_registry_add / _inv / _remove / _fanout "
         "(no two live registrations share an id, for every history; the probe terminates; removal is exact; every live registration gets each unsolicited frame once, in order), differential through the real receive path. ",
     ),
     "C08": dict(
